@@ -1,8 +1,8 @@
-\* exhaustive safety run, the repaired rule (C15): bounded L1, every relative speed of finality / syncer / ticks,
+\* a design TLC refutes (SafeInject): the store is read in two steps and the syncer may commit in between. The repaired rule (C15): bounded L1, every relative speed of finality / syncer / ticks,
 \* reorgs above the finalized block, foreign injections, dependency failures
 CONSTANTS
   Rule = "fixed"
-  StoreRead = "snapshot"
+  StoreRead = "tworeads"
   Treadmill = FALSE
   Record = FALSE
   MaxBlock = 4
